@@ -36,7 +36,7 @@ CHECKS = {
  "C03": ("fault_enumeration", "§6 C03", "deterministic simulation with crash injection: every file-system-call boundary of every sampled workload is a kill point; images built from the recorded shadow and recovered with the real open",
          "For each sampled workload (set/del/merge/reopen, small file limits so rollovers and multi-file merges are common) every state-changing I/O record is a crash point (quick tier: at most 80 per workload, always including first/last record of every operation; thorough: all). The directory image after that prefix of calls is materialised and opened with the real Config::open; every key must read the acknowledged value or the in-flight operation's value, never error/panic/older value; on shares of the images the recovered store must accept a set/get/del round, a second open must read the same, writes the recovered store acknowledges must survive its own clean close and reopen, and a merge on the recovered store (workload's thresholds) must change no read, neither at once nor after a clean close and reopen. A quarter of the workloads are concurrent (2-3 writer threads on disjoint keys plus a merging thread under a seeded schedule; crash points are positions in the global I/O log)."),
  "C06": ("exploration", "§6 C06", "deterministic simulation of the full stack: real Server on the simulated runtime and TCP model, one scripted client with seeded segmentation and pipelining, sequential map model, independent RESP reply decoder",
-         "1-40 well-formed SET/GET/DEL requests (values with CR, LF, NUL, empty, >8 KiB; UTF-8 keys incl. empty and multi-byte; DEL with repeated/absent keys) sent in pieces of 1 byte / random sizes / whole, pipelining windows 1..all, socket capacities 64 B - 64 KiB (partial writes, back-pressure), per-segment delay, read segmentation down to one byte, spurious Pending. Exactly one reply per request, in order, equal to the model; nothing more; final store scan equals the model; the server stops on the shutdown signal."),
+         "1-40 well-formed SET/GET/DEL requests (values with CR, LF, NUL, empty, >8 KiB; UTF-8 keys incl. empty and multi-byte; DEL with repeated/absent keys) sent in pieces of 1 byte / random sizes / whole, pipelining windows 1..all, socket capacities 64 B - 64 KiB (partial writes, back-pressure), per-segment delay, read segmentation down to one byte, spurious Pending; a third of the clients now and then send only a prefix of a request, wait for every reply that is due, and then send the rest. Exactly one reply per request, in order, equal to the model; nothing more; final store scan equals the model; the server stops on the shutdown signal."),
  "C08": ("exploration", "§6 C08", "deterministic simulation: two real Connection ends over one simulated stream (or a raw harness writer that stalls / cuts inside a frame), seeded segmentation; independent encoder as reference",
          "Sequences of 1-12 frames from the property's domain (simple strings/errors, i64 extremes and 18/19-digit values, bulk strings incl. trailing CR, empty, 8190-70000 bytes, null, arrays, empty array). (a) write_frame into memory equals the independent encoding; (b) real writer -> simulated stream (partial writes, back-pressure, delays) -> real reader yields equal frames then a clean end; (c) raw writer stalls after a generated byte count: read_frame must have produced exactly the complete frames and still be pending; (d) raw writer cuts the stream inside a frame: read_frame must report an error, not a clean end."),
  "C09": ("fault_enumeration", "§6 C09", "deterministic simulation with power-loss injection: per crash point, per file any suffix after the last completed fsync is dropped; recovery with the real open vs. acknowledged-writes model",
@@ -48,9 +48,9 @@ CHECKS = {
  "C16": ("exploration", "§6 C16", "deterministic simulation of the full stack: the shutdown future is a simulator one-shot fired at a scripted point of a connection's life (idle, mid-frame, mid-command, reply in flight, pipelined) or at a generated simulated time",
          "0-4 clients on disjoint keys, all reading until end of stream. Oracles: Server::run returns within 60 simulated seconds (checked in growing steps) and no connection task is alive at the instant it returns; each client's byte stream is complete correct replies followed by end of stream (no torn reply); per connection the store holds a prefix of its requests at least as long as the replies it received; afterwards the port is free and no server task is alive."),
  "C17": ("exploration", "§6 C17", "deterministic simulation on the discrete-event clock: the store's background thread (adopted through pthread_create interposition) under seeded schedules, drop at generated instants, stale-handle use, immediate reopen, open/close cycles",
-         "Merge policy always / interval sync with check intervals from 10 ms to 1 h, disk latency stretching merges and syncs, 0-2 client threads racing the drop. Oracles: every operation invoked through a handle after the drop returned yields the 'closed' error; operations racing the drop go either way and define the model; the directory opens again at once and holds exactly the acknowledged contents; every background worker exits without the simulated clock having to reach its next timer (slack = 50 simulated ms plus injected disk latency; a worker still alive after two of its longest timer intervals is reported as never exiting); no store descriptor stays open after the cycles."),
+         "Merge policy always / interval sync with check intervals from 10 ms to 1 h (a fifth of the runs with the window policy: windows open, closed, closing, opening relative to the simulated wall clock), disk latency stretching merges and syncs, 0-2 client threads racing the drop. Oracles: every operation invoked through a handle after the drop returned yields the 'closed' error; operations racing the drop go either way and define the model; the directory opens again at once and holds exactly the acknowledged contents; every background worker exits without the simulated clock having to reach its next timer (slack = 50 simulated ms plus injected disk latency; a worker still alive after two of its longest timer intervals is reported as never exiting); no store descriptor stays open after the cycles."),
  "C18": ("exploration", "§6 C18", "deterministic simulation on the discrete-event clock: triggers placed just above / exactly at / below the statistics a workload produced; merges and fsyncs observed in the I/O log with simulated timestamps",
-         "Phase 1 produces a write pattern with background tasks off; phase 2 reopens with policy never/always and triggers set relative to the real per-file statistics (dead bytes or fragmentation just crossed, exactly equal, far above, far below), check intervals 10 ms - 1 h, jitter 0-1 with thread_rng forced to range extremes; then only simulated time passes. Oracles: never => no merge; trigger exceeded => first merge within interval*(1+jitter); not exceeded => no merge within 3 such spans; interval sync => no fsync gap longer than the interval and the forced file is the active one. A third round checks interval sync while two client threads write under injected disk latency (the writer lock is held across simulated time, sync ticks fall into those periods): between two forced syncs there may be the interval plus exactly the time the store's own threads spent waiting for locks and disk in that span (simulated time only passes while threads wait, so the allowance is exact and independent of lock fairness or of how the loop is written)."),
+         "Phase 1 produces a write pattern with background tasks off; phase 2 reopens with policy never/always and triggers set relative to the real per-file statistics (dead bytes or fragmentation just crossed, exactly equal, far above, far below), check intervals 10 ms - 1 h, jitter 0-1 with thread_rng forced to range extremes; then only simulated time passes. Oracles: never => no merge; trigger exceeded => first merge within interval*(1+jitter); not exceeded => no merge within 3 such spans; interval sync => the forced file is the active one, and every client append is followed by a forced sync of its file within one interval plus exactly the time the store's own threads spent waiting for locks and disk in that span (simulated time only passes while threads wait), unless the file stopped being the newest data file first; a second burst of writes and a third round with two client threads writing under injected disk latency (the writer lock is held across simulated time, sync ticks fall into those periods) create the obligations."),
  "C19": ("exploration", "§6 C19", "deterministic simulation: verif_dump bookkeeping vs. independent scan of the files after every operation",
          "After every operation the index and per-file live/dead/dead_bytes counters (verif_dump) are compared with an independent decoder's scan of the shadow files; overflow checks are on in the shadow build so counter underflow panics. A quarter of the runs are concurrent histories (1-3 writer threads, 1-3 reader threads, optionally a merging thread, seeded random / PCT schedules); the same comparison is made once every thread has been joined, with the contents taken from a final scan."),
 }
